@@ -16,7 +16,10 @@ pub use self::{
 };
 
 mod prelude {
+    #[cfg(not(pearl_verif))]
     pub(crate) use async_lock::RwLock as ASRwLock;
+    #[cfg(pearl_verif)]
+    pub(crate) use crate::verif::AsRwLock as ASRwLock;
     pub(crate) use {
         super::{
             config::Config, core::Inner, observer::Msg, observer::Observer,
